@@ -14,6 +14,7 @@ let parse_fevs (s : string) =
 
 let oracle_c15 (line : string) : string =
   let (c, o) = split_case_obs line in
+  if String.length o >= 3 && (String.sub o 0 3 = "CRA" || String.sub o 0 3 = "ERR" || String.sub o 0 3 = "FAU") then "BAD the implementation crashed or the observation is malformed" else
   let cs = parse_case c in
   let recs = parse_obs o in
   (* the targets of the take_focus operations, in order *)
